@@ -199,6 +199,12 @@ Json::Value gen() {
   }
   // compiling a drop-in takes a while (slow plugin initialisation): widens every compile window
   if (P(35)) c["init_sleep_us"] = R(200, 4000);
+  // file names up to NAME_MAX: the logical names keep their order, the physical name is the logical one padded to
+  // the chosen length (an inotify event carries the name, padded to a multiple of the event header's alignment)
+  if (P(25)) {
+    for (auto& n : kNames)
+      if (P(40)) c["long_names"][n] = oneOf(std::vector<int>{64, 100, 239, 240, 241, 247, 248, 254, 255});
+  }
   return c;
 }
 
@@ -259,9 +265,14 @@ Verdict run(const Json::Value& c) {
     f.marker = w["marker"].asString();
     f.stamp = ++stamp;
   };
+  auto phys = [&](const std::string& name) {
+    if (!c.isMember("long_names") || !c["long_names"].isMember(name)) return name;
+    size_t len = (size_t)c["long_names"][name].asInt();
+    return len > name.size() ? name + std::string(len - name.size(), 'x') : name;
+  };
   for (auto& w : c["preexisting"]) {
     std::string name = w["name"].asString();
-    writeFilePieces(dir + "/" + name, content(w), 1);
+    writeFilePieces(dir + "/" + phys(name), content(w), 1);
     applyWrite(w, name);
   }
   // start-up order: files present are loaded in name order, so the newest
@@ -315,7 +326,7 @@ Verdict run(const Json::Value& c) {
     for (auto& op : c["ops"]) {
       std::string o = op["op"].asString();
       std::string name = op.get("name", "").asString();
-      std::string path = dir + "/" + name;
+      std::string path = dir + "/" + phys(name);
       struct stat st;
       bool dirExists = ::stat(dir.c_str(), &st) == 0;
       if (o == "recreate_race") {
@@ -394,7 +405,7 @@ Verdict run(const Json::Value& c) {
       } else if (o == "rename_over" && dirExists) {
         std::string to = op["to"].asString();
         if (to != name && model[name].present) {
-          if (::rename(path.c_str(), (dir + "/" + to).c_str()) == 0) {
+          if (::rename(path.c_str(), (dir + "/" + phys(to)).c_str()) == 0) {
             FileModel f = model[name];
             f.stamp = ++stamp;
             if (model[to].present && model[to].valid) sawRewriteOfActive = true;
@@ -518,6 +529,7 @@ Verdict run(const Json::Value& c) {
   scripts.init_sleep_us = 0;
   if (sawRewriteOfActive) v.labels.push_back("rewrite_of_active");
   if (c.isMember("preexisting")) v.labels.push_back("preexisting_files");
+  if (c.isMember("long_names")) v.labels.push_back("long_file_names");
   return v;
 }
 
